@@ -3,6 +3,7 @@
   Model: `Tu.countOf`, `Tu.countAll`, `Tu.topK`, `Tu.dictCreate`, `Tu.closestSpec` (Model/Dict.lean).
 -/
 import TuModel.Lemmas.DictL
+import TuModel.Lemmas.DictFileL
 namespace Tu.C20
 open Tu
 
@@ -94,6 +95,114 @@ theorem closestSpec_isSome (q : List (List Nat)) (es : List (List (List Nat) × 
   | nil => exact absurd rfl hne
   | cons e0 es => rfl
 
+/-! ### `Dictionary::save` / `Dictionary::load` (Model/DictFile.lean) -/
+
+/-- decimal printing and parsing are inverse for every usize value -/
+theorem parseUsize_decDigits (n : Nat) (h : n < 2 ^ 64) : parseUsize (decDigits n) = some n := by
+  have := DictFileL.parseUsize_digits (decDigits n) (DictFileL.decDigits_ne_nil n)
+    (DictFileL.decDigits_all_isDigit n) (by rw [DictFileL.digitsVal_decDigits]; exact h)
+  rw [DictFileL.digitsVal_decDigits] at this
+  exact this
+
+/-- one saved line parses back to its entry -/
+theorem parseLine_saveLine (k : Key) (v : Nat) (hk : keyOk k = true) (hv : v < 2 ^ 64) :
+    parseLine (k ++ [9] ++ decDigits v) = some (k, v) := by
+  cases k with
+  | nil => rw [DictFileL.keyOk_nil] at hk; cases hk
+  | cons a t =>
+    obtain ⟨hw, h9, _⟩ := (DictFileL.keyOk_cons a t).1 hk
+    obtain ⟨i, c, hi, hc⟩ := DictFileL.decDigits_last v
+    have htrim : trimCl (a :: t ++ [9] ++ decDigits v) = a :: t ++ [9] ++ decDigits v := by
+      have : a :: t ++ [9] ++ decDigits v = a :: ((t ++ 9 :: i) ++ [c]) := by rw [hi]; simp
+      rw [this]
+      exact DictFileL.trimCl_eq_self _ _ _ hw (DictFileL.isDigit_not_ws hc)
+    have hsplit : splitTab (a :: t ++ [9] ++ decDigits v) = [a :: t, decDigits v] := by
+      have : a :: t ++ [9] ++ decDigits v = (a :: t) ++ 9 :: decDigits v := by simp
+      rw [this]
+      exact DictFileL.splitTab_key_val _ _ h9 (DictFileL.not_mem_decDigits (by decide))
+    unfold parseLine
+    rw [htrim, hsplit]
+    simp only [parseUsize_decDigits v hv, Option.map_some]
+
+/-- the saved file splits into exactly its lines -/
+theorem loadPairs_dictSave (l : List (Key × Nat)) (hk : ∀ e ∈ l, keyOk e.1 = true) (hv : ∀ e ∈ l, e.2 < 2 ^ 64) :
+    loadPairs (dictSave l) = some l := by
+  have h10 : ∀ e ∈ l, 10 ∉ e.1 := by
+    intro e he
+    have := hk e he
+    cases hke : e.1 with
+    | nil => rw [hke, DictFileL.keyOk_nil] at this; cases this
+    | cons a t => rw [hke] at this; exact ((DictFileL.keyOk_cons a t).1 this).2.2
+  unfold loadPairs
+  rw [DictFileL.fileLines_dictSave l h10]
+  exact DictFileL.mapM_map_some _ parseLine l (fun e he => parseLine_saveLine e.1 e.2 (hk e he) (hv e he))
+
+/-- **save followed by load reproduces the dictionary**: for distinct, well-formed keys, whatever order
+`save` wrote the entries in -/
+theorem dictLoad_dictSave (l : List (Key × Nat)) (hk : ∀ e ∈ l, keyOk e.1 = true) (hv : ∀ e ∈ l, e.2 < 2 ^ 64)
+    (hd : (l.map (·.1)).Nodup) :
+    dictLoad (dictSave l) = some { entries := l, freqSum := (l.map (·.2)).sum } := by
+  unfold dictLoad
+  rw [loadPairs_dictSave l hk hv, Option.map_some, DictFileL.foldl_mapInsert l [] (by simpa using hd)]
+  rfl
+
+/-- the acceptance test used by the correspondence check is sound and complete for such dictionaries:
+a file is accepted iff it is the save of some descending ordering of the entries -/
+theorem saveAccepts_iff (entries : List (Key × Nat)) (file : List Nat)
+    (hk : ∀ e ∈ entries, keyOk e.1 = true) (hv : ∀ e ∈ entries, e.2 < 2 ^ 64) (hd : (entries.map (·.1)).Nodup) :
+    saveAccepts entries file = true ↔
+      ∃ l, l.Perm entries ∧ descending l = true ∧ file = dictSave l := by
+  constructor
+  · intro h
+    unfold saveAccepts at h
+    split at h
+    · cases h
+    · rename_i kvs hload
+      simp only [Bool.and_eq_true, beq_iff_eq, List.all_eq_true, List.contains_eq_mem, decide_eq_true_eq] at h
+      obtain ⟨⟨⟨⟨hsave, hlen⟩, _⟩, hsub⟩, hdesc⟩ := h
+      have hnd : entries.Nodup :=
+        List.Pairwise.of_map (fun e : Key × Nat => e.1) (fun a b hab e => hab (e ▸ rfl)) hd
+      exact ⟨kvs, (DictFileL.perm_of_nodup_subset entries kvs hnd (fun e he => hsub e he) (by omega)).symm,
+        hdesc, hsave.symm⟩
+  · rintro ⟨l, hp, hdesc, rfl⟩
+    unfold saveAccepts
+    rw [loadPairs_dictSave l (fun e he => hk e (hp.mem_iff.1 he)) (fun e he => hv e (hp.mem_iff.1 he))]
+    simp only [Bool.and_eq_true, beq_iff_eq, List.all_eq_true, List.contains_eq_mem, decide_eq_true_eq]
+    exact ⟨⟨⟨⟨trivial, hp.length_eq⟩, fun e he => hp.mem_iff.1 he⟩, fun e he => hp.mem_iff.2 he⟩, hdesc⟩
+
+/-- every key `load` can return is well-formed in this sense, so loaded dictionaries are in the domain of the
+round trip (keys come from `parseLine`) -/
+theorem parseLine_keyOk (line : List Nat) (k : Key) (v : Nat) (h : parseLine line = some (k, v)) (hl : 10 ∉ line) :
+    keyOk k = true ∧ v < 2 ^ 64 := by
+  obtain ⟨w, rest, hsplit, hparse⟩ := DictFileL.parseLine_some h
+  refine ⟨?_, DictFileL.parseUsize_some hparse⟩
+  unfold splitTab at hsplit
+  cases ht : trimCl line with
+  | nil =>
+    -- an empty trimmed line has one part only: `parseLine` fails
+    unfold parseLine at h
+    rw [ht] at h
+    cases h
+  | cons a T =>
+    have hw : isWsCp a = false := DictFileL.trimCl_head line a T ht
+    have ha9 : a ≠ 9 := by intro e; subst e; revert hw; decide
+    rw [ht, splitTabAux, if_neg (by simpa using ha9)] at hsplit
+    obtain ⟨x, hx, h9, hm⟩ := DictFileL.splitTabAux_head _ _ _ _ hsplit
+    have hk : k = a :: x := by rw [hx]; rfl
+    rw [hk, DictFileL.keyOk_cons]
+    have hmem : ∀ c ∈ a :: x, c ∈ line := by
+      intro c hc
+      apply DictFileL.trimCl_mem line c
+      rw [ht]
+      rcases List.mem_cons.1 hc with e | e
+      · exact e ▸ List.mem_cons_self
+      · exact List.mem_cons_of_mem _ (hm c e)
+    refine ⟨hw, ?_, fun h10 => hl (hmem 10 h10)⟩
+    intro hmem9
+    rcases List.mem_cons.1 hmem9 with e | e
+    · exact ha9 e.symm
+    · exact h9 e
+
 /-! ### non-vacuity -/
 
 example : topK [([97], 3), ([98], 1), ([99], 3)] (some 2) = [([97], 3), ([99], 3)] := by decide
@@ -105,5 +214,42 @@ example : (dictCreate [[[97], [98]], [[97]], [[99]]] (some 1) (some 2)).freqSum 
 example : closestSpec [[97]] [([[98]], 2), ([[97], [98]], 5), ([[99]], 5)] false = some ([1, 2], 5) := by decide
 /-- the key-distinctness hypothesis of `topK_length` is needed: duplicates share a rank -/
 example : (topK [([97], 3), ([97], 3)] (some 1)).length = 2 := by decide
+
+/-! ### non-vacuity of the save / load round trip -/
+
+/-- "new york" (inner space), "中文" (non-ASCII), "a"; a frequency tie between the first two -/
+private def exDict : List (Key × Nat) :=
+  [([110, 101, 119, 32, 121, 111, 114, 107], 7), ([0x4e2d, 0x6587], 7), ([97], 120)]
+
+example : (∀ e ∈ exDict, keyOk e.1 = true) ∧ (∀ e ∈ exDict, e.2 < 2 ^ 64) ∧ (exDict.map (·.1)).Nodup := by decide
+example : dictSave [([97, 32, 98], 7), ([0x4e2d], 120)] = [97, 32, 98, 9, 55, 10, 0x4e2d, 9, 49, 50, 48, 10] := by decide
+example : loadPairs (dictSave exDict) = some exDict := by decide
+example : (dictLoad (dictSave exDict)).map (fun d => (d.entries, d.freqSum)) = some (exDict, 134) := by decide
+/-- `save` may write the tie in either order, but not in ascending order of frequency -/
+example : saveAccepts exDict (dictSave [exDict[2], exDict[0], exDict[1]]) = true := by decide
+example : saveAccepts exDict (dictSave [exDict[2], exDict[1], exDict[0]]) = true := by decide
+example : saveAccepts exDict (dictSave exDict) = false := by decide
+example : saveAccepts exDict (dictSave [exDict[2], exDict[0]]) = false := by decide
+/-- a `\r` inside or at the end of a key, and white space at the end of a key, survive the round trip -/
+example : loadPairs (dictSave [([97, 13], 3), ([98, 32], 0)]) = some [([97, 13], 3), ([98, 32], 0)] := by decide
+/-- the bounds of `parseUsize_decDigits` -/
+example : parseUsize (decDigits 0) = some 0 := by decide
+example : parseUsize (decDigits (2 ^ 64 - 1)) = some (2 ^ 64 - 1) := by decide
+example : parseUsize (decDigits (2 ^ 64)) = none := by decide
+/-- `keyOk` is needed: a key with a leading space does not round-trip (`trim` removes the space) … -/
+example : (dictLoad (dictSave [([32, 97], 1)])).map (·.entries) = some [([97], 1)] := by decide
+example : dictLoad (dictSave [([32, 97], 1)]) ≠ some { entries := [([32, 97], 1)], freqSum := 1 } := by
+  intro h
+  have := congrArg (Option.map (·.entries)) h
+  revert this
+  decide
+/-- … a key of white space only, an empty key or a key with a tab make the saved file unloadable -/
+example : loadPairs (dictSave [([32], 1)]) = none := by decide
+example : loadPairs (dictSave [([], 1)]) = none := by decide
+example : loadPairs (dictSave [([97, 9, 98], 1)]) = none := by decide
+/-- … and distinct keys are needed: `load` merges equal keys (the later value wins) -/
+example : (dictLoad (dictSave [([97], 2), ([97], 1)])).map (·.entries) = some [([97], 1)] := by decide
+/-- `parseLine_keyOk`: `load` accepts a `+` sign and surrounding white space, the key it returns is well-formed -/
+example : parseLine [32, 97, 32, 98, 9, 43, 53, 32, 13] = some ([97, 32, 98], 5) := by decide
 
 end Tu.C20
